@@ -151,7 +151,8 @@ class TraitDict(dict):
         Any return values are ignored.
         """
 
-        for notifier in self.notifiers:
+        # (a notifier may remove itself, or add another, while it is called)
+        for notifier in list(self.notifiers):
             notifier(self, removed, added, changed)
 
     # -- dict interface -------------------------------------------------------
